@@ -294,6 +294,33 @@ def _presentation(ctx):
                 if lost_big:
                     ctx.violation(f"drop:super-tolerance-dropped:{'default' if not kw4 else 'explicit'}", f"{system}: {lost_big} above drop_atol={atol} but dropped", case_id,
                                   {"system": system, "atol": atol, "mag": mag})
+            # a component that crosses the drop tolerance (below it at some volumes, above it at others) is not "below at all
+            # volumes": it stays, and - the table being complete and exactly consistent - every entry of it stays what was supplied
+            if nrows >= 2:
+                for atol in (1e-3, 0.5, 2.0):
+                    c = coef3.copy()
+                    lowrow = numpy.arange(nrows) % 2 == int(rng.integers(0, 2))
+                    c[jb, :] = numpy.where(lowrow, atol * 0.5, atol * 6.0) * rng.choice([-1.0, 1.0], nrows)
+                    f5 = (B @ c).T
+                    st, r = call_fill(ctx, FT.make_frame(f5, list(range(21))), system, case_id, "drop-crossing", drop_atol=atol)
+                    ctx.evaluation("drop-tolerance-crossing", (system, n, atol))
+                    if st != "ok":
+                        if st != "harness":
+                            ctx.violation(f"drop:{st}", f"{system}: complete consistent table not accepted with drop_atol={atol}: {r}", case_id)
+                        continue
+                    m = FT.frame_moduli(r)
+                    for i in nz:
+                        col = f5[:, i]
+                        if not numpy.any(numpy.abs(col) > atol * 2):
+                            continue
+                        nm = FT.NAMES[i]
+                        if nm not in m:
+                            ctx.violation("drop:super-tolerance-dropped:crossing", f"{system}: {nm} exceeds drop_atol={atol} at some volumes but was dropped",
+                                          case_id, {"system": system, "atol": atol})
+                        elif numpy.abs(m[nm] - col).max() > 1e-7 * max(1.0, numpy.abs(f5).max()):
+                            ctx.violation("drop:entries-below-tolerance-changed", f"{system}: {nm} is kept (above drop_atol={atol} at some volumes) but its "
+                                          f"entries moved by {numpy.abs(m[nm] - col).max():.3g}", case_id, {"system": system, "atol": atol, "supplied": col.tolist(),
+                                                                                                     "returned": m[nm].tolist()})
 
 
 def write_relation_file(path, system, rng):
